@@ -16,7 +16,12 @@ T1 = f'memref<{E}xi32, "L1">'
 TS = f'memref<{E}xi32, strided<[1], offset: ?>, "L3">'
 
 
+TV = f'memref<{E}xi32, strided<[1], offset: 0>, "L1">'
+
+
 def btype(b):
+    if b.endswith("v"):
+        return TV  # a view of a temporary, taken in front of the loop
     return TS if b in ("%sa", "%so", "%so2") else T1
 
 
@@ -65,11 +70,20 @@ def gen_ast(rng):
     tail = None
     if rng.random() < 0.12:
         tail = {"tag": t(), "arg": rng.choice(["%off", "%i"])}  # an op behind the last barrier: not the recognised shape
+    alias = None
+    if rng.random() < 0.1:
+        # the consumer stage reads temporary J through a view of it that was taken in front of the loop
+        alias = rng.randrange(ntmp)
+        for o in stages[alias + 1]:
+            if o["k"] == "copy" and o["src"] == f"%t{alias}":
+                o["src"] = f"%t{alias}v"
+            elif o["k"] == "gen":
+                o["ins"] = [f"%t{alias}v" if b == f"%t{alias}" else b for b in o["ins"]]
     post = None
     if rng.random() < 0.12:
         post = {"tag": t(), "src": f"%t{rng.randrange(ntmp)}"}  # a temporary of the loop is read once more behind the loop
     ring = rng.choice([0, 0, 0, 3, 4])  # the side output goes to a ring of `ring` slots: an arith.remui among the index ops
-    return {"nst": nst, "tmps": ntmp, "skip": skip is not None, "tail": tail, "ring": ring, "post": post, "const_bounds": rng.random() < 0.75, "stages": stages}
+    return {"nst": nst, "tmps": ntmp, "skip": skip is not None, "tail": tail, "ring": ring, "post": post, "alias": alias, "const_bounds": rng.random() < 0.75, "stages": stages}
 
 
 def op_text(o):
@@ -105,6 +119,9 @@ def emit(ast, env=None) -> str:
         lb, ub, st = "%lba", "%uba", "%sta"
     for t in range(ast["tmps"]):
         e(f"    %t{t} = memref.alloc() {{vsite = {t} : i64}} : {T1}")
+    if ast.get("alias") is not None:
+        j = ast["alias"]
+        e(f"    %t{j}v = memref.subview %t{j}[0][{E}][1] : {T1} to {TV}")
     if ast.get("skip"):
         e(f"    %u0 = memref.alloc() {{vsite = 8 : i64}} : {T1}")
     e(f"    %g = memref.alloc() {{vsite = 9 : i64}} : {T1}")
